@@ -187,7 +187,7 @@ class C04(Prop):
                     ops.append("readwin C=0 W=10")     # EOF after the last record
                 ops.append("close")
             out.append({"name": "gen%d" % c, "ops": ops, "sticky": 1, "meta": {"kind": kind, "geom": meta["geom"], "nrec": nrec}})
-        return out
+        return S.record_distribution(ctx, out)
 
     def nontrivial(self, case, out):
         return sum(1 for l in out if l.startswith("ok name=")) >= 1
